@@ -46,6 +46,9 @@ DenText1(s, v) ==
       [] s = "y"       -> v.y
       [] s = "a"       -> v.a
       [] s = "2"       -> 2
+      \* pure numbers with more significant digits than a '%g' keeps
+      [] s = "1234567" -> 1234567
+      [] s = "12345678" -> 12345678
       [] s = "x*y"     -> v.x * v.y
       [] s = "y*x"     -> v.y * v.x
       [] s = "x/y"     -> v.x \div v.y
@@ -85,6 +88,7 @@ DenText1(s, v) ==
       [] s = "a*(b+c)" -> v.a * (v.b + v.c)
 
 DenText(s, v) == IF s = "y/x" THEN (2 * v.y) \div v.x
+                 ELSE IF s = "100000.5" THEN 200001
                  ELSE IF s = "0.025*w" THEN v.w \div 20
                  ELSE 2 * DenText1(s, v)
 
